@@ -228,7 +228,11 @@ class IOOpsMixin:
             if ent is None:
                 raise LookupError("no-stored-output")
             df, refused_before = ent
-            if not refused_before:
+            if getattr(self.seams.ctx, "attempt", 0) > 0:
+                # retry after an injected fault: the interrupted attempt may have been cut in the middle of its (legitimate) write-back into the
+                # table, so the client rebuilds its table instead of re-using a possibly half-written one
+                df = self._static_frame(client, present)
+            elif not refused_before:
                 # the earlier call with the other system was accepted and legitimately wrote into the table: start from a fresh one
                 df = self._static_frame(client, present)
             else:
